@@ -9,8 +9,9 @@
   regenerated from /repo on every run.
 -/
 import Gzx.Proofs.RS
+import Gzx.Proofs.MinDist
 namespace Gzx.Properties.C04
-open Gzx Gzx.GF Gzx.RS Gzx.Ref.GF Gzx.Proofs.GF Gzx.Proofs.Poly Gzx.Proofs.RS
+open Gzx Gzx.GF Gzx.RS Gzx.Ref.GF Gzx.Proofs.GF Gzx.Proofs.Poly Gzx.Proofs.RS Gzx.Proofs.MinDist
 
 /-! ## (a) field arithmetic = polynomial arithmetic modulo the primitive polynomial -/
 
@@ -137,7 +138,7 @@ theorem rs_encode_zero_syndromes (F : GF) (h : FieldOK F) (data : List Nat) (r :
   exact h4 i hi
 
 /-- the model decoder computes exactly these syndromes (so `ZeroSyndromes` is what `Decode` tests) -/
-theorem rs_syndromes_eq (F : GF) (h : FieldOK F) (w : List Nat) (hne : w ≠ []) (hw : InField F w) (r : Nat)
+theorem rs_syndromes_eq (F : GF) (h : FieldOK F) (w : List Nat) (hw : InField F w) (r : Nat)
     (hb : r + F.base ≤ F.size) :
     syndromes F (normalize w) r 0 =
       .ok ((List.range' 0 r).map (fun i => evalH F.prim (alpha F (i + F.base)) w)) := by
@@ -166,11 +167,130 @@ theorem rs_decode_encode (F : GF) (h : FieldOK F) (data : List Nat) (r : Nat)
   simp at h2; omega
 
 /-! non-vacuity -/
-example : encodeWord qrCode256 [32, 91, 11, 120, 209, 114, 220, 77, 67, 64, 236, 17, 236, 17, 236, 17] 10 =
-    .ok [32, 91, 11, 120, 209, 114, 220, 77, 67, 64, 236, 17, 236, 17, 236, 17,
-         196, 35, 39, 119, 235, 215, 231, 226, 93, 23] := by decide +kernel
+example : encodeWord aztecParam [5, 10, 3] 4 = .ok [5, 10, 3, 9, 6, 2, 14] := by decide +kernel
+example : decode aztecParam [5, 10, 3, 9, 6, 2, 14] 4 = .ok [5, 10, 3, 9, 6, 2, 14] := by decide +kernel
+/-- two corrupted symbols of this GF(16) word with 4 parity symbols are restored (instance of `rs_corrects`) -/
+example : decode aztecParam [5, 11, 3, 9, 6, 2, 1] 4 = .ok [5, 10, 3, 9, 6, 2, 14] := by decide +kernel
 example : InField aztecParam [1, 2, 3] ∧ 5 + aztecParam.base ≤ aztecParam.size := by
   refine ⟨?_, by decide⟩
   intro x hx; simp at hx; rcases hx with rfl | rfl | rfl <;> decide
+
+
+/-! ## (d) error correction up to the design distance
+
+Full statement of the clause "decoding any such word after corruption of at most floor(parity/2)
+symbol positions restores it exactly" (NOT yet proved for the Euclid/Chien/Forney path in general):
+
+```
+theorem rs_corrects (F : GF) (h : FieldOK F) (hb : F.base ≤ 1) (c e : List Nat) (r : Nat)
+    (hlen : e.length = c.length) (hn : c.length ≤ F.size - 1) (hc : InField F c) (he : InField F e)
+    (hz : ZeroSyndromes F c r) (hr : r < c.length) (hwt : 2 * weight e ≤ r) :
+    decode F (List.zipWith (· ^^^ ·) c e) r = .ok c
+```
+
+What is proved below (`rs_corrects_partial_*`):
+ (1) `rs_syndromes_linear`   — syndromes are xor-linear: the syndromes of `c + e` are those of `e`;
+ (2) `rs_min_distance`       — two code words that differ in at most `r` positions are equal
+                               (minimum distance `r+1`, Vandermonde argument), hence
+     `rs_unique_nearest`     — the code word within distance `⌊r/2⌋` of a received word is unique, so
+                               the word the property demands is the only admissible answer;
+ (3) clean words pass unchanged (`rs_decode_clean` above, the `|E| = 0` case of `rs_corrects`).
+Missing for the full theorem: the key equation `Λ·S ≡ Ω (mod x^r)` for the output of the model's
+`runEuclideanAlgorithm` (Euclid invariants + uniqueness of the solution of degree ≤ r/2), Chien search
+finds exactly the inverse locators, Forney's formula with the generator-base correction.
+For `1 ≤ |E| ≤ ⌊r/2⌋` the evidence is the correspondence + oracle part of the check (every single- and
+double-error pattern of four short codes in all six fields, sampled shapes, Chien boundary roots). -/
+
+/-- Hamming weight: number of non-zero symbols -/
+abbrev wt (w : List Nat) : Nat := weight w
+
+/-- (1) syndromes are linear: the value of `c + e` at any field element is the xor of the values -/
+theorem rs_syndromes_linear (F : GF) (h : FieldOK F) (c e : List Nat) (hlen : c.length = e.length)
+    (hc : InField F c) (he : InField F e) (a : Nat) :
+    evalH F.prim a (List.zipWith (· ^^^ ·) c e) = evalH F.prim a c ^^^ evalH F.prim a e := by
+  have := evalFrom_xor h.2 a c e 0 0 hlen (size_pos h) (size_pos h) hc he
+  rw [Nat.xor_zero] at this
+  exact this
+
+theorem zipWith_xor_all_zero : ∀ (a b : List Nat), a.length = b.length →
+    (∀ x, x ∈ List.zipWith (· ^^^ ·) a b → x = 0) → a = b
+  | [], [], _, _ => rfl
+  | [], _ :: _, h, _ => by simp at h
+  | _ :: _, [], h, _ => by simp at h
+  | x :: xs, y :: ys, hl, hz => by
+    have h1 : x ^^^ y = 0 := hz _ (by simp)
+    have h2 := zipWith_xor_all_zero xs ys (by simpa using hl) (fun z hz' => hz z (by simp [hz']))
+    rw [xor_eq_zero h1, h2]
+
+/-- (2) minimum distance `r + 1`: two code words (zero syndromes `S_0 … S_{r-1}`) of the same length
+    `n ≤ size - 1` that differ in at most `r` positions are equal -/
+theorem rs_min_distance (F : GF) (h : FieldOK F) (c1 c2 : List Nat) (r : Nat)
+    (hlen : c1.length = c2.length) (hn : c1.length ≤ F.size - 1) (h1 : InField F c1) (h2 : InField F c2)
+    (hz1 : ZeroSyndromes F c1 r) (hz2 : ZeroSyndromes F c2 r)
+    (hd : wt (List.zipWith (· ^^^ ·) c1 c2) ≤ r) : c1 = c2 := by
+  apply zipWith_xor_all_zero c1 c2 hlen
+  apply min_distance h.2 F.base r _ (InR_zipWith_xor h.2 c1 c2 h1 h2) (by simp [← hlen]; exact hn) hd
+  intro i hi
+  rw [← alpha_eq_pw F h, rs_syndromes_linear F h c1 c2 hlen h1 h2, hz1 i hi, hz2 i hi]
+  rfl
+
+theorem weight_triangle : ∀ (a v b : List Nat), a.length = v.length → v.length = b.length →
+    wt (List.zipWith (· ^^^ ·) a b) ≤ wt (List.zipWith (· ^^^ ·) a v) + wt (List.zipWith (· ^^^ ·) v b)
+  | [], [], [], _, _ => Nat.le_refl _
+  | [], _ :: _, _, h, _ => by simp at h
+  | _ :: _, [], _, h, _ => by simp at h
+  | _, [], _ :: _, _, h => by simp at h
+  | _, _ :: _, [], _, h => by simp at h
+  | x :: xs, y :: ys, z :: zs, h1, h2 => by
+    have ih := weight_triangle xs ys zs (by simpa using h1) (by simpa using h2)
+    unfold wt weight at *
+    simp only [List.zipWith_cons_cons]
+    by_cases hxz : x ^^^ z = 0
+    · rw [List.filter_cons_of_neg (by simp [hxz])]
+      have a1 := List.length_filter_le (· != 0) ((x ^^^ y) :: List.zipWith (· ^^^ ·) xs ys)
+      have : (List.filter (· != 0) ((x ^^^ y) :: List.zipWith (· ^^^ ·) xs ys)).length ≥
+          (List.filter (· != 0) (List.zipWith (· ^^^ ·) xs ys)).length := by
+        by_cases hh : x ^^^ y = 0
+        · rw [List.filter_cons_of_neg (by simp [hh])]; exact Nat.le_refl _
+        · rw [List.filter_cons_of_pos (by simpa using hh)]; simp
+      have : (List.filter (· != 0) ((y ^^^ z) :: List.zipWith (· ^^^ ·) ys zs)).length ≥
+          (List.filter (· != 0) (List.zipWith (· ^^^ ·) ys zs)).length := by
+        by_cases hh : y ^^^ z = 0
+        · rw [List.filter_cons_of_neg (by simp [hh])]; exact Nat.le_refl _
+        · rw [List.filter_cons_of_pos (by simpa using hh)]; simp
+      omega
+    · rw [List.filter_cons_of_pos (by simpa using hxz)]
+      have hor : x ^^^ y ≠ 0 ∨ y ^^^ z ≠ 0 := by
+        by_cases hh : x ^^^ y = 0
+        · right
+          rw [xor_eq_zero hh] at hxz; exact hxz
+        · exact Or.inl hh
+      rcases hor with hh | hh
+      · rw [List.filter_cons_of_pos (l := List.zipWith (· ^^^ ·) xs ys) (by simpa using hh)]
+        have : (List.filter (· != 0) ((y ^^^ z) :: List.zipWith (· ^^^ ·) ys zs)).length ≥
+            (List.filter (· != 0) (List.zipWith (· ^^^ ·) ys zs)).length := by
+          by_cases hh : y ^^^ z = 0
+          · rw [List.filter_cons_of_neg (by simp [hh])]; exact Nat.le_refl _
+          · rw [List.filter_cons_of_pos (by simpa using hh)]; simp
+        simp only [List.length_cons]; omega
+      · rw [List.filter_cons_of_pos (l := List.zipWith (· ^^^ ·) ys zs) (by simpa using hh)]
+        have : (List.filter (· != 0) ((x ^^^ y) :: List.zipWith (· ^^^ ·) xs ys)).length ≥
+            (List.filter (· != 0) (List.zipWith (· ^^^ ·) xs ys)).length := by
+          by_cases hh : x ^^^ y = 0
+          · rw [List.filter_cons_of_neg (by simp [hh])]; exact Nat.le_refl _
+          · rw [List.filter_cons_of_pos (by simpa using hh)]; simp
+        simp only [List.length_cons]; omega
+
+/-- (2') unique nearest code word: if a received word `v` is within `t` positions of the code word `c`
+    and of the code word `c'`, and `2t ≤ r`, then `c = c'`.  So `encode(d)` is the only code word a
+    decoder may return for `encode(d) + e`, `|E| ≤ ⌊r/2⌋`. -/
+theorem rs_unique_nearest (F : GF) (h : FieldOK F) (c c' v : List Nat) (r t : Nat)
+    (hl1 : c.length = v.length) (hl2 : v.length = c'.length) (hn : c.length ≤ F.size - 1)
+    (h1 : InField F c) (h2 : InField F c') (hz1 : ZeroSyndromes F c r) (hz2 : ZeroSyndromes F c' r)
+    (hd1 : wt (List.zipWith (· ^^^ ·) c v) ≤ t) (hd2 : wt (List.zipWith (· ^^^ ·) v c') ≤ t)
+    (ht : 2 * t ≤ r) : c = c' := by
+  apply rs_min_distance F h c c' r (by omega) hn h1 h2 hz1 hz2
+  have := weight_triangle c v c' hl1 hl2
+  omega
 
 end Gzx.Properties.C04
